@@ -55,8 +55,10 @@
 //     programs built with evmprog.Asm that move value on purpose: CALL with value to
 //     pool members, CREATE/CREATE2 with endowment whose child self-destructs (in the
 //     initcode or when called afterwards in the same transaction), payments to an
-//     account after it self-destructed, and STOP/REVERT/INVALID/SELFDESTRUCT
-//     terminators (DrawScenario).
+//     account after it self-destructed, SSTOREs over four slots (half of them
+//     present at genesis, so that slots are deleted and storage tries collapse),
+//     BLOCKHASH of the last three blocks stored to storage, and STOP/REVERT/
+//     INVALID/SELFDESTRUCT terminators (DrawScenario).
 //   - coinbase per block: a fresh address, a sender, a contract, or the zero address.
 //
 // Pool addresses are also handed to evmprog as call/selfdestruct targets, so the
@@ -78,7 +80,7 @@
 //
 // Build commits the genesis, runs core.GenerateChainWithGenesis and, while the
 // chain maker advances, inserts every finished block into a real core.BlockChain
-// (BuildOptions.ChainConfig: tracer, state scheme, ...) so that BLOCKHASH has a chain
+// (BuildOptions.Chain: tracer, state scheme, ...) so that BLOCKHASH has a chain
 // to look at and so that callers get the blocks re-executed through the real
 // insertion path. With BuildOptions.HoldLast the last block is generated but NOT
 // inserted (Built.Chain's head is its parent): C34 inserts it itself with witness
